@@ -9,9 +9,10 @@ def P := Gen.protoParams
 
 def showObs : Obs → String
   | .deliver f => s!"DELIVER {f.ver} {f.rrId} {f.callId} {f.payload.length} {hexOrDash f.payload}"
-  | .sent c b => s!"SENT {c} {hexOrDash b}"
+  | .out (.sent c b) => s!"SENT {c} {hexOrDash b}"
+  | .out (.log c) => s!"LOG {c}"
+  | .out (.callret r) => s!"CALLRET {r}"
   | .log c => s!"LOG {c}"
-  | .callret r => s!"CALLRET {r}"
   | .restart => "RESTART"
 
 def scratch0 : Bytes := List.replicate (P.hdr + P.maxData) 0
@@ -36,6 +37,6 @@ def step (s : Io) (toks : List String) : Io × List String :=
     (s', o.map showObs)
 
 def main : IO Unit := do
-  loop (← IO.getStdin) ({ ver := Gen.espProtoVer } : Io) step
+  loop (← IO.getStdin) ({ o := { ver := Gen.espProtoVer } } : Io) step
 
 end Driver.IoDrv
